@@ -2,6 +2,7 @@ SPECIFICATION MCSpec
 CONSTANTS
   NWriters = 3
   Mode = "local"
+  FirstUse = TRUE
   Recheck = TRUE
   TrackSched = TRUE
   CellMap = "separate"
